@@ -28,6 +28,9 @@ def generate(tier, seed):
                     steps.append(Q_ec(k, r))
                     steps.append(Q_e(r))
                 steps += ["?gp:p:p", "?gp:p:p" + k]
+                # now and then with enforcement switched off (both entry points then grant everything) and on again
+                if n % 7 == 3:
+                    steps = ["EE:0"] + steps[:8] + ["EE:1"] + steps
                 cases.append(case("eng", sp, adapter_M(lines), "-", steps))
                 n += 1
             dist["%s/%s" % (name, k)] = n
